@@ -91,6 +91,8 @@ func (c c11) Generate(seed uint64, tier string, idx int) *core.Plan {
 	p := &core.Plan{Prop: "C11", Seed: r.U64(), Tier: tier, Cfg: map[string]int64{}}
 	p.Cfg["spare"] = int64(r.Pick([]int{0, 7, 64}))
 	p.Cfg["segmode"] = int64(r.Pick([]int{0, 2}))
+	p.Cfg["bufreuse"] = int64(r.Intn(2))
+	p.Cfg["scramble"] = int64(r.Intn(256))
 	p.Steps = append(p.Steps, core.Step{Op: "iss", A: []int64{1, int64(r.Intn(1 << 20))}})
 	p.Steps = append(p.Steps, core.Step{Op: "iss", A: []int64{2, int64(r.Intn(8))}})
 	p.Steps = append(p.Steps, core.Step{Op: "iss", A: []int64{5, int64(r.Intn(1 << 20))}})
@@ -209,6 +211,14 @@ func (c c11) Execute(p *core.Plan) *core.Result {
 		if o.Err != nil && o.Op != "redeem" {
 			res.Violate(fmt.Sprintf("C11/type%d/honest-%s-failed", o.S.Type, o.Op), fmt.Sprintf("session %d (blind class %d): %v", o.S.ID, classes[o.S.ID], o.Err), -1)
 		}
+		if o.Op == "finalize" && o.Err == nil {
+			// "the same key, challenge and nonce give ..." — the token must be the one for these arguments
+			for i, t := range o.Tokens {
+				if msg := CheckTokenBinding(o.S, i, t, hostKeyID(w, o.S)); msg != "" {
+					res.Violate(fmt.Sprintf("C11/type%d/token-not-a-function-of-arguments", o.S.Type), fmt.Sprintf("session %d: %s (request creation depends on earlier calls?)", o.S.ID, msg), -1)
+				}
+			}
+		}
 	})
 	StartAll(w)
 	if !w.Net.Run() {
@@ -291,6 +301,7 @@ func (c c11) rust(w *world.World, res *core.Result) {
 			res.Violate("C11/rust/response-list", fmt.Sprintf("vector %d: the Rust response list decodes to %d entries (%v), want %d", vi, len(entries), derr, len(v.Issuance)), -1)
 			continue
 		}
+		var batchReqs []tokens.TokenRequestWithDetails
 		for ii, is := range v.Issuance {
 			pkS, ch, nonce, blind, want := core.Unhex(is.PkS), core.Unhex(is.Challenge), core.Unhex(is.Nonce), core.Unhex(is.Blind), core.Unhex(is.Token)
 			kid := sha256.Sum256(pkS)
@@ -312,6 +323,7 @@ func (c c11) rust(w *world.World, res *core.Result) {
 					continue
 				}
 				req, fin = st.Request().Marshal(), st.FinalizeToken
+				batchReqs = append(batchReqs, st.Request())
 				own = func() ([]byte, error) {
 					sk := new(oprf.PrivateKey)
 					if err := sk.UnmarshalBinary(oprf.SuiteP384, core.Unhex(is.SkS)); err != nil {
@@ -337,6 +349,7 @@ func (c c11) rust(w *world.World, res *core.Result) {
 					continue
 				}
 				req, fin = st.Request().Marshal(), st.FinalizeToken
+				batchReqs = append(batchReqs, st.Request())
 				own = func() ([]byte, error) {
 					r := new(type2.BasicPublicTokenRequest)
 					if !r.Unmarshal(req) {
@@ -366,6 +379,14 @@ func (c c11) rust(w *world.World, res *core.Result) {
 				res.Violate("C11/rust/token-from-own-response", fmt.Sprintf("vector %d issuance %d (type %s): our issuer's response does not finalize to the vector's token (%v)", vi, ii, is.Type, err), -1)
 			}
 			res.Probe("Rust vector issuance replayed")
+		}
+		// the whole batch through the repository's batch client: byte-identical to token_request
+		if len(batchReqs) == len(v.Issuance) {
+			res.Evals++
+			br, err := batched.NewBasicClient().CreateTokenRequest(batchReqs)
+			if err != nil || !bytes.Equal(br.Marshal(), reqList) {
+				res.Violate("C11/rust/batch-request-bytes", fmt.Sprintf("vector %d: the batch request built by BatchedClient from the vector's requests differs from the Rust token_request (%v)", vi, err), -1)
+			}
 		}
 	}
 }
